@@ -89,12 +89,9 @@ Qed.
 
 Definition tsts_ok (tsts : tsts_t) : Prop := forall r, ok (tsts r).
 
-(** Stage invariant of [fix_slices]: the anchor is positioned, the file has raw slices, and —
-    only where subtraction is checked — a [CreateAfter] anchor does not end at offset 0. *)
-Definition fix_inv (wrapping : bool) (raw : list raw_slice) (f : lintfix) : Prop :=
-  raw <> [] /\
-  exists m, f_anchor f = Some m /\
-            (wrapping = false -> f_type f = CreateAfter -> 1 <= tpl_stop m).
+(** Stage invariant of [fix_slices]: the anchor is positioned and the file has raw slices. *)
+Definition fix_inv (raw : list raw_slice) (f : lintfix) : Prop :=
+  raw <> [] /\ exists m, f_anchor f = Some m.
 
 Lemma raw_from_templated_total tsts raw r : tsts_ok tsts -> raw <> [] -> ok (raw_from_templated tsts raw r).
 Proof.
@@ -104,18 +101,13 @@ Proof.
 Qed.
 
 Theorem fix_slices_total wrapping within_only tsts raw f :
-  tsts_ok tsts -> fix_inv wrapping raw f -> ok (fix_slices false wrapping within_only tsts raw f).
+  tsts_ok tsts -> fix_inv raw f -> ok (fix_slices false wrapping within_only tsts raw f).
 Proof.
-  intros Ht [Hr [m [Hm Hca]]]. unfold fix_slices. rewrite Hm.
+  intros Ht [Hr [m Hm]]. unfold fix_slices. rewrite Hm.
   destruct (f_type f) eqn:Ety.
   - apply raw_from_templated_total; assumption.
-  - apply bind_ok.
-    + unfold usize_sub. destruct within_only.
-      * destruct (0 <=? tpl_stop m) eqn:E; [eexists; reflexivity|]. apply N.leb_gt in E; lia.
-      * destruct (1 <=? tpl_stop m) eqn:E; [eexists; reflexivity|].
-        destruct wrapping; [eexists; reflexivity|].
-        apply N.leb_gt in E. specialize (Hca eq_refl eq_refl). lia.
-    + intros; apply raw_from_templated_total; assumption.
+  - apply bind_ok; [eexists; reflexivity|].
+    intros; apply raw_from_templated_total; assumption.
   - destruct (src_start m =? src_stop m); [eexists; reflexivity|].
     cbn [orb]. destruct (f_edits f) as [|e es] eqn:Hes.
     + cbn. apply raw_from_templated_total; assumption.
@@ -129,7 +121,7 @@ Proof.
 Qed.
 
 Theorem has_template_conflicts_total wrapping tsts raw f :
-  tsts_ok tsts -> fix_inv wrapping raw f -> ok (has_template_conflicts false wrapping tsts raw f).
+  tsts_ok tsts -> fix_inv raw f -> ok (has_template_conflicts false wrapping tsts raw f).
 Proof.
   intros Ht Hi. unfold has_template_conflicts.
   match goal with |- ok (if ?c then _ else _) => destruct c end; [eexists; reflexivity|].
@@ -137,7 +129,7 @@ Proof.
 Qed.
 
 Theorem any_conflict_total wrapping tsts raw fs :
-  tsts_ok tsts -> Forall (fix_inv wrapping raw) fs -> ok (any_conflict false wrapping tsts raw fs).
+  tsts_ok tsts -> Forall (fix_inv raw) fs -> ok (any_conflict false wrapping tsts raw fs).
 Proof.
   intros Ht H. induction H as [|f fs Hf _ IH]; cbn [any_conflict]; [eexists; reflexivity|].
   apply bind_ok; [apply has_template_conflicts_total; assumption|].
@@ -155,26 +147,36 @@ Definition cv07_fix : lintfix :=
 (** Before the repair: an empty edit list indexes [source_edit_slices[0]] — under the very
     invariant that makes the repaired function total. *)
 Theorem fix_slices_legacy_refuted :
-  exists tsts raw f, tsts_ok tsts /\ fix_inv true raw f /\
+  exists tsts raw f, tsts_ok tsts /\ fix_inv raw f /\
     has_template_conflicts true true tsts raw f = Crash site_source_edit_index.
 Proof.
   exists id_tsts, lit_file, cv07_fix. split; [intros r; eexists; reflexivity|].
-  split; [split; [discriminate | eexists; split; [reflexivity | discriminate]] | vm_compute; reflexivity].
+  split; [split; [discriminate | eexists; reflexivity] | vm_compute; reflexivity].
 Qed.
 
 Example fix_slices_fixed_on_witness :
-  fix_inv true lit_file cv07_fix /\ has_template_conflicts false true id_tsts lit_file cv07_fix = Val false.
-Proof. split; [split; [discriminate | eexists; split; [reflexivity | discriminate]] | vm_compute; reflexivity]. Qed.
+  fix_inv lit_file cv07_fix /\ has_template_conflicts false true id_tsts lit_file cv07_fix = Val false.
+Proof. split; [split; [discriminate | eexists; reflexivity] | vm_compute; reflexivity]. Qed.
 
-(** With checked arithmetic (dev/test profile) a [CreateAfter] whose anchor ends at templated
-    offset 0 underflows [anchor_slice.end - 1]: the guard in [fix_inv] is necessary. *)
+(** Before the second repair: with checked arithmetic (debug/test profile) a [CreateAfter] whose
+    anchor ends at templated offset 0 underflowed [anchor_slice.end - 1] — again under the invariant
+    that makes the repaired function total. Real witness: ansi, rules CV06+CV07, fix, "(\nSELECT 1\n);\n". *)
 Definition create_after_zero : lintfix :=
   {| f_type := CreateAfter; f_anchor := Some {| src_start := 0; src_stop := 0; tpl_start := 0; tpl_stop := 0 |};
      f_edits := [{| e_leaf := true; e_srcfix := []; e_same_raw := false |}]; f_has_source := false |}.
 
-Theorem create_after_zero_checked_crashes :
-  has_template_conflicts false false id_tsts lit_file create_after_zero = Crash site_create_after_underflow.
-Proof. vm_compute; reflexivity. Qed.
+Theorem create_after_zero_legacy_refuted :
+  tsts_ok id_tsts /\ fix_inv lit_file create_after_zero /\
+  has_template_conflicts true false id_tsts lit_file create_after_zero = Crash site_create_after_underflow.
+Proof.
+  split; [intros r; eexists; reflexivity|].
+  split; [split; [discriminate | eexists; reflexivity] | vm_compute; reflexivity].
+Qed.
+
+Example create_after_zero_fixed :
+  has_template_conflicts false false id_tsts lit_file create_after_zero = Val false /\
+  has_template_conflicts false true id_tsts lit_file create_after_zero = Val false.
+Proof. vm_compute. split; reflexivity. Qed.
 
 Theorem anchor_without_marker_crashes wrapping tsts raw t es src :
   t <> Replace \/ (exists e1 e2 es', es = e1 :: e2 :: es') \/ es = [] ->
